@@ -194,7 +194,10 @@ def decide(rep, prog):
     # the report loop may only be left through its condition (all announced descriptors copied / list ended)
     for l in sorted(report_loops):
         info = stats['topo.query']['loops'][l]
-        early = [kind for kind, trace, st in (info['iter_states'] or []) if kind in ('break', 'return')]
+        # (a `break` taken at the top of an iteration because the list cursor is NULL, before anything was done in it, is the
+        #  "list ended" conjunct of the loop condition written as a statement)
+        early = [kind for kind, trace, st in (info['iter_states'] or []) if kind in ('break', 'return')
+                 and not (kind == 'break' and not [e for e in trace if e[0] in ('memcpy', 'send', 'free', 'malloc')] and cursor_null_in(info, st))]
         rep.check(not early, 'R07.i', 'report-loop|early-exit',
                   'the report loop can be left early (%s) before all announced descriptors are copied: the QueryResp then announces more observations than it carries and the '
                   'uncopied ones are released with the rest' % ','.join(sorted(set(early))), function='parseQuery', file=fnf,
@@ -361,12 +364,36 @@ def keep_between_queries(rep, fnf):
                       'are cut off the list and never reported' % (s.tos, s.op, ls), function='parseFrame', file=fnf)
 
 
+def cursor_null_in(info, st):
+    """Is the local that pointed into the observation list when the iteration started NULL in state st?"""
+    start = info.get('iter_start')
+    if start is None:
+        return False
+    for oid, ob in start.objs.items():
+        if not oid.startswith('L:'):
+            continue
+        for key, (w, t) in ob.cells.items():
+            t = start.canon(t)
+            if (t[0] == 'ptr' and t[1] == 'SEEN') or (t[0] == 'pset' and 'SEEN' in repr(t)):
+                ob2 = st.objs.get(oid)
+                c = ob2.cells.get(key) if ob2 is not None else None
+                if c is not None and st.canon(c[1]) == ZERO:
+                    return True
+    return False
+
+
 def cursor_null_at_exit(st, loops, report_loops):
     """Was the report loop left, on the path leading to final state `st`, with its list cursor NULL?  The cursor is the
     local that pointed into the observation list when the iteration started; the exit snapshot is selected by the
     state's `exit:<loop>` tag (index of the failing conjunct's exit state)."""
     for l in report_loops:
         info = loops[l]
+        if st.tags.get('left-by-break:' + l):
+            # left through a `break`: the list ended iff every break of this loop happens with the cursor NULL
+            brks = [s_ for kind, _tr, s_ in (info.get('iter_states') or []) if kind == 'break']
+            if brks and all(cursor_null_in(info, s_) for s_ in brks):
+                return True
+            continue
         snaps = info.get('exit_snaps') or []
         start = info.get('iter_start')
         if not snaps or start is None:
